@@ -187,25 +187,39 @@ func guard(f func()) (site string) {
 	return ""
 }
 
+// lastPanicOrigin: the function in which the last recovered panic was raised (the innermost frame that is not
+// the Go runtime); "" when it is the orb function reported as the site.
+var lastPanicOrigin string
+
 func panicSite() string {
 	pc := make([]uintptr, 64)
 	n := runtime.Callers(3, pc)
 	frames := runtime.CallersFrames(pc[:n])
+	lastPanicOrigin = ""
+	origin := ""
 	for {
 		fr, more := frames.Next()
+		if origin == "" && !strings.HasPrefix(fr.Function, "runtime.") && fr.Function != "" {
+			origin = fr.Function
+		}
 		if strings.HasPrefix(fr.Function, "github.com/paulmach/orb") {
+			if !strings.HasPrefix(origin, "github.com/paulmach/orb") {
+				lastPanicOrigin = origin
+			}
 			return strings.TrimPrefix(fr.Function, "github.com/paulmach/")
 		}
 		if !more {
 			break
 		}
 	}
+	lastPanicOrigin = origin
 	return ""
 }
 
-// panicEvent is the event recorded for a panicking call: no trace spec allows k = "panic".
+// panicEvent is the event recorded for a panicking call: no trace spec allows k = "panic". origin names the
+// third-party function that raised the panic when it was not raised in orb's own code.
 func panicEvent(fn, site string, in interface{}) map[string]interface{} {
-	return map[string]interface{}{"k": "panic", "fn": fn, "site": site, "in": in}
+	return map[string]interface{}{"k": "panic", "fn": fn, "site": site, "origin": lastPanicOrigin, "in": in}
 }
 
 // ---- projections ------------------------------------------------------------------------------
